@@ -22,8 +22,12 @@ def ctype(node):
 def cast(bits, signed, e):
     return f'(castS {bits} {e})' if signed else f'(castU {bits} {e})'
 
+# records whose sizeof, and constants whose value, Gen/Layout.lean carries (harness/drv/layout.cpp measures them on every run)
+SIZEOF = {'Tag', 'TilesetHeader', 'PpalHeader'}
+CONSTS = {'DefaultPaletteHeaderSize': 'ts_DefaultPaletteHeaderSize', 'DefaultPixelWidth': 'ts_DefaultPixelWidth'}
+
 class Tr:
-    def __init__(self): self.tables = {}
+    def __init__(self): self.tables = {}; self.locals = set()
     def expr(self, n):
         k = n['kind']
         if k == 'IntegerLiteral': return f'({n["value"]} : Int)'
@@ -37,7 +41,13 @@ class Tr:
             if ck == 'IntegralToBoolean': return f'(if {self.expr(inner)} ≠ 0 then 1 else 0)'
             if ck == 'ArrayToPointerDecay': return self.expr(inner)
             raise NotImplementedError('cast ' + str(ck))
-        if k == 'DeclRefExpr': return n['referencedDecl']['name']
+        if k == 'DeclRefExpr':
+            rd = n['referencedDecl']; name = rd['name']
+            if rd.get('kind') == 'VarDecl' and name not in self.locals:
+                # a namespace / class constant: its value is the one layout.cpp measures from the same sources
+                if name not in CONSTS: raise NotImplementedError('constant ' + name + ' (not measured in Gen/Layout)')
+                b, s = ctype(n); return cast(b, s, f'(Op2.Gen.Layout.{CONSTS[name]} : Int)')
+            return name
         if k == 'MemberExpr':
             return 'self_' + n['name']
         if k == 'UnaryOperator':
@@ -75,7 +85,9 @@ class Tr:
             args = ' '.join(self.expr(a) for a in n['inner'][1:])
             return f'(gen_{name} {args})'
         if k == 'UnaryExprOrTypeTraitExpr':
-            raise NotImplementedError('sizeof (needs Layout)')
+            t = n.get('argType', {}).get('qualType', '').split('::')[-1].strip()
+            if n.get('name') != 'sizeof' or t not in SIZEOF: raise NotImplementedError('sizeof ' + t + ' (not measured in Gen/Layout)')
+            return f'(Op2.Gen.Layout.size_{t} : Int)' 
         if k == 'InitListExpr':
             return '(' + ', '.join(self.expr(x) for x in n['inner']) + ')'
         if k in ('ExprWithCleanups', 'MaterializeTemporaryExpr', 'CXXBindTemporaryExpr'): return self.expr(n['inner'][0])
@@ -89,6 +101,7 @@ class Tr:
         if k == 'DeclStmt':
             out = ''
             for v in s['inner']:
+                self.locals.add(v['name'])
                 init = v['inner'][0]
                 if init['kind'] == 'InitListExpr':   # constant table
                     vals = ', '.join(str(x['value']) for x in init['inner'])
@@ -126,6 +139,7 @@ def translate(src, fn, nparams, members=()):
     raise RuntimeError('no definition for ' + fn)
 
 PRELUDE = '''-- GENERATED by extract/c2lean.py from the clang-14 typed AST of /repo's current sources; do not edit
+import Op2Model.Gen.Layout
 namespace Op2.Gen.Formulas
 /-- conversion to an unsigned type of `bits` bits -/
 def castU (bits : Nat) (x : Int) : Int := x % (2 ^ bits : Int)
@@ -143,6 +157,8 @@ FUNCTIONS = [
     ('Archive/HuffLZ.cpp', 'GetOffsetModifiers', 1, []),
     ('Map/MapHeader.h', 'WidthInTiles', 0, ['self_lgWidthInTiles']),
     ('Map/MapHeader.h', 'TileCount', 0, ['self_heightInTiles', 'self_lgWidthInTiles']),
+    ('Sprite/TilesetLoader.cpp', 'CalculatePixelHeaderLength', 1, []),
+    ('Sprite/TilesetLoader.cpp', 'CalculatePbmpSectionSize', 1, []),
 ]
 
 def generate(repo):
